@@ -311,22 +311,24 @@ Example C12_rest2_nonvacuous :
     match parse_rest2 10 s with Ok (b, s') => b = true /\ lp s' = 4 | _ => False end.
 Proof. exact rest2_hyps_example. Qed.
 
-(** the hypotheses of C12_parse_total_nopanic_if_names (hence of C12_parse_total_partial_first_pass_shape) are satisfiable: the
+(** the hypotheses of C12_parse_total_never_panics (hence of C12_parse_total_partial_first_pass_shape) are satisfiable: the
     pool with just the root scope, the table While (Zero) { } with handle 1; ParseAML returns true with four objects *)
-Example C12_nopanic_if_names_nonvacuous :
+Example C12_never_panics_nonvacuous :
   exists (tree : T) (g : ghost) (data : list N),
     R tree g /\
     (forall i o, TreeSpec.get tree i = Some o -> o_opcode o <> opFreed -> opInfo (o_infoIndex o) <> None) /\
     glive g 0 /\ groot g 0 /\
     (exists o, TreeSpec.get tree 0 = Some o /\ o_opcode o = aml_pOpIntScopeBlock) /\
     TM2 tree g /\
+    (forall i o, TreeSpec.get tree i = Some o -> o_opcode o <> opFreed) /\
     (forall i o, TreeSpec.get tree i = Some o -> o_opcode o <> opFreed -> o_opcode o = aml_pOpIntNamePathOrMethodCall ->
                  exists tbl sl, o_value o = Some (VBytes tbl sl)) /\
+    (forall n no tbl sl, TreeSpec.get tree n = Some no -> o_opcode no = aml_pOpIntNamePath -> o_value no = Some (VBytes tbl sl) ->
+       forall s0 bytes, p_tables s0 = [] ++ [data] -> slice_bytes s0 tbl sl = Ok bytes -> good_path bytes) /\
     pool_ok [] tree /\
     (forall i o, TreeSpec.get tree i = Some o -> o_tableHandle o <> 1) /\
     image_small data /\
     (let L := N.of_nat (length (t_pool tree)) + 4 * N.of_nat (length data) + 2 in
      L + L * (8 * N.of_nat (length data) + 3) + 4 <= InvalidIndex) /\
-    (forall s1, first_pass 200 (init_state tree [] 1 data) = Ok (ROk, s1) -> NAMEOK s1) /\
     match parseAML_body 200 (init_state tree [] 1 data) with Ok (b, s') => b = true /\ lp s' = 4 | _ => False end.
 Proof. exact parseAML_hyps_example. Qed.
